@@ -176,6 +176,22 @@ pub fn near_misses(r: &mut Rng, sp: &SpecP, numbers: bool) -> Vec<String> {
         format!("{fixed}{sep}{good}.restart-12{sfx}"),
         "unrelated.log".to_string(),
         format!(".{fixed}{sep}{good}{sfx}"),                // dot file
+        // what lenient number / date parsers accept but the scheme never produces
+        format!("{fixed}{sep}r+0007{sfx}"),                 // sign instead of a digit
+        format!("{fixed}{sep}r+00007{sfx}"),
+        format!("{fixed}{sep}r-0007{sfx}"),
+        format!("{fixed}{sep}r 0007{sfx}"),                 // blank
+        format!("{fixed}{sep}r0000x{sfx}"),
+        format!("{fixed}{sep}r٠٠٠٠٧{sfx}"),                 // non-ASCII digits
+        format!("{fixed}{sep}r0x007{sfx}"),
+        format!("{fixed}{sep}r00_07{sfx}"),
+        format!("{fixed}{sep}R00007{sfx}"),                 // other case
+        format!("{fixed}{sep}r+2024-01-31_10-11-12{sfx}"),
+        format!("{fixed}{sep}r2024-1-31_10-11-12{sfx}"),     // unpadded field
+        format!("{fixed}{sep}r2024-01-31 10-11-12{sfx}"),
+        format!("{fixed}{sep}r2024-01-31_10-11-12 {sfx}"),   // trailing blank
+        format!("{fixed}{sep}r2024-01-31_10-11{sfx}"),       // seconds missing
+        format!("{fixed}{sep}rcurrent{sfx}"),
     ];
     if fixed.len() > 1 {
         let mut cut = fixed.len() - 1;
